@@ -9,6 +9,9 @@
 -/
 import Model.CastGen
 import Model.CastSpec
+import Proofs.IntText
+
+set_option linter.unusedSimpArgs false
 
 namespace Jl
 open Cast
@@ -342,5 +345,74 @@ theorem cast_float_source (T : CastTables) (ext : Ext) (name : String) (c : Cast
         rcases hsrc with ⟨rfl, hx⟩ | ⟨rfl, hx⟩ <;>
           simp [evalE, ← hx, floatToInt_exact t tr frac neg hin]
   · exact absurd hspec id
+
+
+theorem inRange_signed_iff (t : IntTy) (h : t.signed = true) (v : Int) :
+    t.inRange v ↔ (-(2 ^ (t.bits - 1) : Int) ≤ v ∧ v < 2 ^ (t.bits - 1)) := by
+  cases t <;> simp [IntTy.signed] at h <;> simp [IntTy.inRange, IntTy.min, IntTy.max, IntTy.signed, IntTy.bits] <;> omega
+
+theorem inRange_unsigned_iff (t : IntTy) (h : t.signed = false) (v : Int) :
+    t.inRange v ↔ (0 ≤ v ∧ v < 2 ^ t.bits) := by
+  cases t <;> simp [IntTy.signed] at h <;> simp [IntTy.inRange, IntTy.min, IntTy.max, IntTy.signed, IntTy.bits] <;> omega
+
+theorem bits_pos (t : IntTy) : t.bits ≠ 0 := by cases t <;> simp [IntTy.bits]
+
+/-- Canonical decimal text of `v` (the image of strconv.FormatInt) cast to an integer type:
+    exactly `v` when it fits, the cast failure otherwise — at any fuel ≥ 2. -/
+theorem call_text_source (T : CastTables) (ext : Ext) (name : String) (c : Caster) (tgt : IntTy) (v : Int)
+    (fuel : Nat)
+    (hc : T.casters.find? (fun c => c.name == name) = some c)
+    (hspec : textBranchSpec T tgt (findClause c .str)) :
+    callNamed T ext (fuel + 2) name (.str (IntText.formatInt v)) =
+      if tgt.inRange v then .ok (.int tgt v) else .err .cast := by
+  unfold callNamed
+  simp only [hc, typeOf]
+  generalize findClause c .str = br at hspec
+  unfold textBranchSpec at hspec
+  split at hspec
+  · -- ParseInt
+    obtain ⟨hsig, rfl, hbits, he, hs⟩ := hspec
+    rename_i bits e s
+    simp only [evalBranch, runParse, failWith, hs]
+    have hb : (if bits = 0 then 64 else bits) = tgt.bits := by
+      rcases hbits with h | ⟨h0, h64⟩
+      · subst h; simp [bits_pos]
+      · subst h0; simp [h64]
+    simp only [beq_self_eq_true, if_true, IntText.parseInt0_formatInt, hb, ← inRange_signed_iff tgt hsig v]
+    by_cases hr : tgt.inRange v
+    · rcases he with rfl | ⟨rfl, rfl⟩ <;> simp [hr, evalE, wrap_of_inRange _ _ hr]
+    · simp [hr]
+  · -- ParseUint
+    obtain ⟨hsig, rfl, hbits, he, hs⟩ := hspec
+    rename_i bits e s
+    simp only [evalBranch, runParse, failWith, hs]
+    have hb : (if bits = 0 then 64 else bits) = tgt.bits := by
+      rcases hbits with h | ⟨h0, h64⟩
+      · subst h; simp [bits_pos]
+      · subst h0; simp [h64]
+    simp only [beq_self_eq_true, if_true, IntText.parseUint0_formatInt, hb, ← inRange_unsigned_iff tgt hsig v]
+    by_cases hr : tgt.inRange v
+    · have hnn : 0 ≤ v := ((inRange_unsigned_iff tgt hsig v).mp hr).1
+      have hcast : ((v.toNat : Nat) : Int) = v := Int.toNat_of_nonneg hnn
+      rcases he with rfl | ⟨rfl, rfl⟩ <;> simp [hr, evalE, hcast, wrap_of_inRange _ _ hr]
+    · simp [hr]
+  · exact absurd hspec id
+
+/-- json.Number carrying canonical decimal text: the caster calls itself on `string(val)`. -/
+theorem cast_num_source (T : CastTables) (ext : Ext) (c : Caster) (tgt : IntTy) (v : Int)
+    (hc : T.casters.find? (fun c => c.name == casterOfInt tgt) = some c)
+    (htext : textBranchSpec T tgt (findClause c .str))
+    (hnum : numBranchSpec tgt (findClause c .num)) :
+    castNamed T ext (casterOfInt tgt) (.num (IntText.formatInt v)) =
+      if tgt.inRange v then .ok (.int tgt v) else .err .cast := by
+  unfold castNamed callNamed
+  simp only [hc, typeOf]
+  generalize hbr : findClause c .num = br at hnum
+  unfold numBranchSpec at hnum
+  split at hnum
+  · subst hnum
+    simp only [evalBranch, evalE]
+    exact call_text_source T ext _ c tgt v 20 hc htext
+  · exact absurd hnum id
 
 end Jl
